@@ -7,16 +7,29 @@ variable {cfg : Cfg} {tid : Nat} {sh sh' : Shared} {th th' : Thread}
 
 /-! ## Checking out a queued connection object, open or not -/
 
-/-- `_get_conn` on a queue whose top item is a connection object `c` — whether its socket is open
-or was closed by a `Connection: close` reply: exactly that one item leaves the queue, no socket is
-opened or closed, no connection object is created, and the thread goes on to write its request on
-that same object. -/
+/-- `_get_conn` on a queue whose top item is a connection object `c` — whether its socket is open,
+was closed by a `Connection: close` reply, or is open with the peer gone: exactly that one item
+leaves the queue, no socket is opened or closed by the `get`, no connection object is created, and
+the thread goes on with that same object — to `conn.close()` when the peer has dropped it
+(`is_connection_dropped`), else to writing its request. -/
 theorem tstep_getQ_conn {f l st c q} (hpc : th.pc = .getQ f l st) (hq : sh.queue = some c :: q) :
     tstep cfg tid sh th =
-      some ({ sh with queue := q }, { th with pc := .send c f l st }) := by
+      some ({ sh with queue := q },
+            { th with pc := if sh.gone.contains c then .dropClose c f l st else .send c f l st }) := by
   rcases th with ⟨prog, pc, resp, leaked, results, sent, rclose⟩
   simp only at hpc; subst hpc
-  simp [tstep, tstepPc, hq]
+  by_cases hg : c ∈ sh.gone <;> simp [tstep, tstepPc, hq, hg]
+
+/-- closing a dropped connection takes nothing from the queue and creates nothing; the thread goes on
+to write its request on the same object -/
+theorem tstep_dropClose {c f l st} (hpc : th.pc = .dropClose c f l st)
+    (h : tstep cfg tid sh th = some (sh', th')) :
+    c ∉ sh'.openC ∧ sh'.queue = sh.queue ∧ sh'.nextId = sh.nextId ∧ th'.pc = .send c f l st := by
+  rcases th with ⟨prog, pc, resp, leaked, results, sent, rclose⟩
+  simp only at hpc; subst hpc
+  simp only [tstep, tstepPc, Option.some.injEq, Prod.mk.injEq] at h
+  obtain ⟨rfl, rfl⟩ := h
+  simp
 
 /-- writing the request (re)connects the connection object the thread holds: afterwards it is open,
 and nothing was taken from the queue -/
@@ -29,6 +42,23 @@ theorem tstep_send_opens {c f l st} (hpc : th.pc = .send c f l st)
   simp only [tstep, tstepPc, Option.some.injEq, Prod.mk.injEq] at h
   obtain ⟨rfl, rfl⟩ := h
   simp
+
+theorem step_send_opens {s s' : State} {t : Nat} {th : Thread} {c f l st}
+    (hget : s.threads[t]? = some th) (hpc : th.pc = .send c f l st) (h : step s t = some s') :
+    c ∈ s'.sh.openC ∧ s'.sh.queue = s.sh.queue ∧ s'.sh.nextId = s.sh.nextId := by
+  obtain ⟨th1, sh2, th2, hget1, hts, rfl⟩ := step_some h
+  rw [hget] at hget1; cases hget1
+  obtain ⟨h3, h4, h5, -⟩ := tstep_send_opens hpc hts
+  exact ⟨h3, h4, h5⟩
+
+theorem step_dropClose {s s' : State} {t : Nat} {th : Thread} {c f l st}
+    (hget : s.threads[t]? = some th) (hpc : th.pc = .dropClose c f l st) (h : step s t = some s') :
+    c ∉ s'.sh.openC ∧ s'.sh.queue = s.sh.queue ∧ s'.sh.nextId = s.sh.nextId ∧
+      ∃ th', s'.threads[t]? = some th' ∧ th'.pc = .send c f l st := by
+  obtain ⟨th1, sh2, th2, hget1, hts, rfl⟩ := step_some h
+  rw [hget] at hget1; cases hget1
+  obtain ⟨h3, h4, h5, h6⟩ := tstep_dropClose hpc hts
+  exact ⟨h3, h4, h5, th2, by simp [getElem?_set_of_get hget], h6⟩
 
 /-! ## `EmptyPoolError` only on an empty queue -/
 
